@@ -153,6 +153,7 @@ pub struct Driver {
     freeze_at: usize,
     steps_done: usize,
     finished: bool,
+    probe_settled: bool,
 }
 
 pub fn answer_json(i: u64, resp: &HtlcAcceptedResponse) -> Value {
@@ -270,6 +271,7 @@ impl Driver {
             freeze_at,
             steps_done: 0,
             finished: false,
+            probe_settled: false,
             job,
         };
         for (k, h) in d.job.scen.htlcs.clone().into_iter().enumerate() {
@@ -285,6 +287,9 @@ impl Driver {
         for o in &out {
             if o["o"] == "answer" {
                 let i = o["i"].as_u64().unwrap();
+                if i > 100 && o["r"] == "resolve" {
+                    self.probe_settled = true;
+                }
                 self.hst.insert(i, HSt::Answered);
                 self.last_answered.push(i);
             }
@@ -761,6 +766,9 @@ impl Driver {
             self.drain(&mgr, false).await;
             for n in 1..=self.job.probes {
                 self.probe(&mgr, n).await;
+                if self.probe_settled {
+                    break;
+                }
             }
         }
         self.finished = true;
